@@ -41,10 +41,18 @@ func operandClasses() []opClass {
 }
 
 type c01Case struct {
-	E    ref.Expr
-	Data map[string]ref.Value
-	Cell string
-	Pos  int // -1: rotate
+	E       ref.Expr
+	Data    map[string]ref.Value
+	Cell    string
+	Pos     int // -1: rotate
+	Globals map[string]ref.Value
+}
+
+// c01Globals are compile-time globals of every kind.
+var c01Globals = map[string]ref.Value{
+	"G_NULL": ref.Null, "G_TRUE": ref.Bool(true), "G_FALSE": ref.Bool(false), "G_ZERO": ref.Int(0), "G_INT": ref.Int(42), "G_NEG": ref.Int(-7), "G_BIG": ref.Int(ref.MaxSafe - 1),
+	"G_FLOAT": ref.Float(2.5), "app.name": ref.Str("soy<app>&'\""), "app.empty": ref.Str(""), "a.b.c.DEEP": ref.Str("deep"),
+	"G_LIST": ref.Value{K: ref.KList, ID: 801, L: []ref.Value{ref.Int(1), ref.Str("two")}}, "G_MAP": ref.Value{K: ref.KMap, ID: 802, Keys: []string{"k"}, M: map[string]ref.Value{"k": ref.Str("v")}},
 }
 
 var (
@@ -192,6 +200,20 @@ func c01Systematic() []c01Case {
 		}
 		for _, l := range lits {
 			add(l, map[string]ref.Value{"m": ref.MapOf("k", ref.Str("v"))}, "literal")
+		}
+		// compile-time globals of every kind, alone and as operands
+		gnames := []string{"G_NULL", "G_TRUE", "G_FALSE", "G_ZERO", "G_INT", "G_NEG", "G_BIG", "G_FLOAT", "app.name", "app.empty", "a.b.c.DEEP", "G_LIST", "G_MAP"}
+		for _, gn := range gnames {
+			gx := &ref.Global{Name: gn}
+			c01Sys = append(c01Sys, c01Case{E: gx, Data: dataFor(), Cell: "global:" + gn, Pos: -1, Globals: c01Globals})
+			for _, op := range []string{"+", "*", "<", "==", "and", "?:"} {
+				c01Sys = append(c01Sys, c01Case{E: &ref.Binary{Op: op, L: gx, R: &ref.Lit{V: ref.Int(2)}}, Data: dataFor(), Cell: "global:" + gn + ":" + op, Pos: -1, Globals: c01Globals},
+					c01Case{E: &ref.Binary{Op: op, L: &ref.Lit{V: ref.Str("s")}, R: gx}, Data: dataFor(), Cell: "global:" + gn + ":" + op + ":rhs", Pos: -1, Globals: c01Globals})
+			}
+			c01Sys = append(c01Sys, c01Case{E: &ref.Tern{C: gx, A: &ref.Lit{V: ref.Str("T")}, B: &ref.Lit{V: ref.Str("F")}}, Data: dataFor(), Cell: "global:" + gn + ":tern", Pos: -1, Globals: c01Globals},
+				c01Case{E: &ref.Unary{Op: "not", X: gx}, Data: dataFor(), Cell: "global:" + gn + ":not", Pos: -1, Globals: c01Globals},
+				c01Case{E: &ref.Unary{Op: "-", X: gx}, Data: dataFor(), Cell: "global:" + gn + ":neg", Pos: -1, Globals: c01Globals},
+				c01Case{E: &ref.Call{Fn: "isNonnull", Args: []ref.Expr{gx}}, Data: dataFor(), Cell: "global:" + gn + ":fn", Pos: -1, Globals: c01Globals})
 		}
 		// map literal read back through every access form
 		ml := &ref.MapLit{Keys: []string{"a", "b c", "d'e"}, Vals: []ref.Expr{&ref.Lit{V: ref.Int(1)}, &ref.Lit{V: ref.Str("x")}, &ref.ListLit{Items: []ref.Expr{&ref.Lit{V: ref.Int(9)}}}}}
@@ -445,6 +467,7 @@ func init() {
 				all := c01Systematic()
 				c := all[i%len(all)]
 				e, d, cell = c.E, c.Data, c.Cell
+				globals = c.Globals
 				if ctx.Tier == "thorough" {
 					pos = i / len(all)
 				} else if i < len(all) {
